@@ -417,3 +417,7 @@ _add(
     "C05",
     m("context-hash-from-parent", S, "            job.context_hash = self.type_registry.get_hash(context)\n", "            job.context_hash = job.parent_job.context_hash if job.parent_job and job.parent_job.context_hash else self.type_registry.get_hash(context)\n", "C05.4"),
 )
+_add(
+    "C04",
+    m("partial-task-valid-ignores-args", T, "        return self.task.is_valid() and get_type_registry().is_valid_nested(\n            (self.args, self.kwargs)\n        )", "        return self.task.is_valid()", "C04.5"),
+)
